@@ -1,0 +1,69 @@
+//! Verification hooks: thin wrappers that expose crate-private units to the
+//! out-of-tree verification harnesses. Compiled only with the `verif-hooks`
+//! feature; no behaviour of the library depends on anything in here.
+
+use std::sync::Arc;
+
+use crate::{
+    CacheControl, IntrospectionMode, Name, Positioned, QueryEnv, SchemaEnv, Value, Variables,
+    context::QueryEnvInner,
+    extensions::Extensions,
+    parser::types::{ExecutableDocument, OperationDefinition},
+    registry::Registry,
+    schema::SchemaEnvInner,
+};
+#[cfg(feature = "dynamic-schema")]
+pub use crate::dynamic::verif_hooks as dynamic;
+pub use crate::{
+    look_ahead::verif_hooks as look_ahead, registry::verif_hooks as registry,
+    schema::verif_hooks as schema, validation::verif_hooks as validation,
+};
+
+pub fn cache_control_merge(a: CacheControl, b: &CacheControl) -> CacheControl {
+    a.merge(b)
+}
+
+pub fn create_value_object(values: Vec<(Name, Value)>) -> Value {
+    crate::resolver_utils::create_value_object(values)
+}
+
+pub fn stringify_exec_doc(
+    registry: &Registry,
+    variables: &Variables,
+    doc: &ExecutableDocument,
+) -> Result<String, std::fmt::Error> {
+    registry.stringify_exec_doc(variables, doc)
+}
+
+pub fn schema_env(registry: Registry) -> SchemaEnv {
+    SchemaEnv(Arc::new(SchemaEnvInner {
+        registry,
+        data: Default::default(),
+        custom_directives: Default::default(),
+    }))
+}
+
+pub fn query_env(
+    schema_env: &SchemaEnv,
+    variables: Variables,
+    operation: Positioned<OperationDefinition>,
+    uploads: Vec<crate::UploadValue>,
+) -> QueryEnv {
+    QueryEnv::new(QueryEnvInner {
+        extensions: Extensions::new(
+            std::iter::empty(),
+            schema_env.clone(),
+            Default::default(),
+        ),
+        variables,
+        operation_name: None,
+        operation,
+        fragments: Default::default(),
+        uploads,
+        session_data: Default::default(),
+        query_data: Default::default(),
+        http_headers: Default::default(),
+        introspection_mode: IntrospectionMode::Enabled,
+        errors: Default::default(),
+    })
+}
